@@ -169,12 +169,21 @@ def check(ctx: Ctx):
     # ---- sections ----------------------------------------------------------------------------------
     ctx.touch(dy)
     want = [("_yaml_domains", "dcop.domains.values()"), ("_yaml_variables", "dcop.variables.values()"), ("_yaml_constraints", "dcop.constraints.values()"), ("yaml_agents", "dcop.agents.values()")]
-    got = []
-    for s in dy.node.body:
-        if isinstance(s, ast.AugAssign) and isinstance(s.value, ast.Call) and isinstance(s.value.func, ast.Name):
-            got.append((s.value.func.id, norm(s.value.args[0]) if s.value.args else ""))
+    # the pieces of the returned string, in order: `s = a; s += b; ...; return s` or `return a + b + ...` (or '\n'.join([...]), folded by the front end)
+    def _flat(e):
+        return _flat(e.left) + _flat(e.right) if isinstance(e, ast.BinOp) and isinstance(e.op, ast.Add) else [e]
     ret = [r for r in walk_no_nested(dy.node) if isinstance(r, ast.Return)]
-    ctx.check(all(w in got for w in want) and len(ret) == 1 and isinstance(ret[0].value, ast.Name), "R-SECTIONS", "dcop_yaml appends domains, variables, constraints and agents of the DCOP", dy, dy.node,
+    pieces = []
+    if len(ret) == 1 and isinstance(ret[0].value, ast.Name):
+        for s in dy.node.body:
+            if isinstance(s, ast.Assign) and norm(s.targets[0]) == ret[0].value.id:
+                pieces = _flat(s.value)
+            elif isinstance(s, ast.AugAssign) and norm(s.target) == ret[0].value.id and isinstance(s.op, ast.Add):
+                pieces += _flat(s.value)
+    elif len(ret) == 1 and ret[0].value is not None and dy.node.body[-1] is ret[0]:
+        pieces = _flat(ret[0].value)
+    got = [(x.func.id, norm(x.args[0]) if x.args else "") for x in pieces if isinstance(x, ast.Call) and isinstance(x.func, ast.Name)]
+    ctx.check(all(w in got for w in want) and len(ret) == 1 and len(got) == len(set(got)), "R-SECTIONS", "dcop_yaml appends domains, variables, constraints and agents of the DCOP", dy, dy.node,
               f"found {got}")
     ctx.touch(ld)
     t = norm(ld.node)
